@@ -85,6 +85,7 @@ type FuncContract struct {
 	Props     []string
 	Wraps     bool // signed arithmetic wraps silently (no overflow obligations)
 	NoTerm    bool
+	RelIdx    bool
 	Rely      []*Clause // rely-guarantee mode: two-state relations every step of the environment (other goroutines) satisfies
 	Guarantee []*Clause // two-state relations every atomic step of this function satisfies (must imply the others' rely)
 	SharedInv []*Clause // one-state invariants of the shared state, holding between atomic steps
@@ -132,7 +133,7 @@ var clauseKeywords = map[string]bool{
 	"decreases": true, "loop": true, "invariant": true, "at": true, "assert": true, "ghost": true,
 	"mode": true, "trusted": true, "inline": true, "pure": true, "axiom": true, "global": true,
 	"type": true, "lemma": true, "props": true, "wraps": true, "unroll": true, "uses": true,
-	"guarded_by": true, "noterm": true, "noalloc": true, "allocates": true, "rely": true, "guarantee": true, "sharedinv": true, "ghostfield": true, "partial": true, "nomerge": true, "traced": true, "bind": true, "ghostparam": true, "recspec": true, "opaque": true, "assume": true, "havoc": true,
+	"guarded_by": true, "relidx": true, "noterm": true, "noalloc": true, "allocates": true, "rely": true, "guarantee": true, "sharedinv": true, "ghostfield": true, "partial": true, "nomerge": true, "traced": true, "bind": true, "ghostparam": true, "recspec": true, "opaque": true, "assume": true, "havoc": true,
 	"split": true, "stdlib": true, "defspec": true, "ih": true, "apply": true,
 }
 
@@ -353,6 +354,13 @@ func parseContractFile(path string, pkg string, pc *PkgContracts) error {
 				return bad("bind param = function")
 			}
 			cur.InstParam, cur.InstName = f[0], f[1]
+		case "relidx":
+			// quantifiers whose bound variable is used both as an index and inside compound index expressions
+			// (s[k] next to b[4*k]) stay in relative-index form in every VC of this function
+			if cur == nil {
+				return bad("relidx outside func")
+			}
+			cur.RelIdx = true
 		case "noterm":
 			cur.NoTerm = true
 		case "noalloc":
